@@ -36,6 +36,7 @@ def shards(tier, seed):
         specs.append({"kind": "expr_layer", "which": "padded", "maxw": 2, "part": i, "parts": NSHARDS,
                       "stride": 4 if tier == "quick" else 1})
         specs.append({"kind": "expr_layer", "which": "crossing", "maxw": 3 if tier == "quick" else 4, "part": i, "parts": NSHARDS, "stride": 1})
+        specs.append({"kind": "expr_layer", "which": "partsel", "maxw": 3 if tier == "quick" else 4, "part": i, "parts": NSHARDS, "stride": 1})
     return specs
 
 
@@ -282,12 +283,29 @@ def crossing_cat_exprs(maxw):
                     yield env, ["cat", [["slice", A, 0, k, None], ["slice", B, k, hi, None], ["slice", A, hi, a[0], None]]]
 
 
+def part_select_exprs(maxw):
+    """Dynamic part selects (windows that may reach past the end of the operand) over operands whose compiled form
+    is not confined to their shape: complements, negations, sign reinterpretations."""
+    from .c01 import shapes_upto
+    A, B = ["sig", 0], ["sig", 1]
+    S = [s for s in shapes_upto(maxw) if s[0] >= 1]
+    U = [s for s in S if not s[1] and s[0] <= 2]
+    for a in S:
+        forms = [A, ["inv", A], ["neg", A], ["as_unsigned", A], ["as_signed", A], ["as_unsigned", ["neg", A]],
+                 ["as_signed", ["inv", A]], ["as_unsigned", ["as_signed", A]]]
+        for b in U:
+            for f in forms:
+                for n in (1, 2, 3):
+                    yield [a, b], ["bit_select", f, B, n]
+                    yield [a, b], ["word_select", f, B, n]
+
+
 def run_expr_layer(spec, out):
     from .. import expr as X
     from .. import exprsim
     from .c01 import enum_single, group_by_env
     pairs = []
-    src = list({"single": enum_single, "padded": padded_operand_exprs, "crossing": crossing_cat_exprs}[spec["which"]](spec["maxw"]))
+    src = list({"single": enum_single, "padded": padded_operand_exprs, "crossing": crossing_cat_exprs, "partsel": part_select_exprs}[spec["which"]](spec["maxw"]))
     for env, e in src:
         try:
             X.ref_shape(e, [tuple(x) for x in env])
